@@ -45,7 +45,9 @@ def refMask (cache : List Row) : List Bool :=
 
 def refPolicy (X : ExpTab) (cfg : Cfg) : Policy where
   route cache cent := argmaxFirst (jtArrVec cache cent)
-  accept c s := accept cfg.merge X cfg.thr (c.mergedSummary s) c.summary s.summary
+  -- `min_safe_uint(new_n)` raises `ValueError` for `new_n ≥ 2^64` before the criterion is consulted;
+  -- the model turns that (unreachable) error into a rejected merge
+  accept c s := decide (c.n + s.n < 2 ^ 64) && accept cfg.merge X cfg.thr (c.mergedSummary s) c.summary s.summary
   mask := refMask
 
 /-! ### insertion of one unit at the root -/
@@ -208,6 +210,11 @@ def delInternal (e : Est) : Est × Option Err :=
   | .full 0 _ _ _ _ => (e, none)
   | .full (_+1) F _ _ _ => ({ e with st := .leavesOnly F e.st.leaves }, none)
 
+/-- the optional shuffle of one `recluster_inplace` iteration -/
+def shuffled (bfs : List Clu) : Option (Option (List Nat)) → List Clu
+  | some (some p) => applyPerm bfs p
+  | _ => bfs
+
 /-- one iteration list of `recluster_inplace` -/
 def reclusterLoop (pol : Cfg → Policy) (extra : Rat) (stopEarly : Bool) :
     Nat → List (Option (List Nat)) → Nat → Est → Est × Option Err
@@ -217,9 +224,7 @@ def reclusterLoop (pol : Cfg → Policy) (extra : Rat) (stopEarly : Bool) :
     let singles := (bfs.filter (fun c => c.n == 1)).length
     if stopEarly && (singles == 0 || singles == before) then (e, none)
     else
-      let bfs' := match perms.head? with
-        | some (some p) => applyPerm bfs p
-        | _ => bfs
+      let bfs' := shuffled bfs perms.head?
       let groups := groupByW bfs'
       let e1 := e.reset
       let e2 := { e1 with cfg := { e1.cfg with thr := fadd e1.cfg.thr extra } }
@@ -245,6 +250,18 @@ def addToU8 (groups : List (W × List Clu)) (us : List Clu) : List (W × List Cl
   if groups.any (fun g => g.1 == W.u8) then groups.map (fun g => if g.1 == W.u8 then (g.1, g.2 ++ us) else g)
   else groups ++ [(W.u8, us)]
 
+/-- `_bf_to_np_refine` for `n_largest = k ≥ 0`: the groups to refit (the `k` largest clusters
+exploded into singletons read from the original data and filed under `"uint8"`), or an error -/
+def refineGroups (bfs : List Clu) (k : Nat) (data : List Row) (initialMol : Nat) : Except Err (List (W × List Clu)) :=
+  let groups0 := groupByW (bfs.drop k)
+  if k = 0 then .ok groups0
+  else
+    match (bfs.take k).mapM (fun c => explode data initialMol c.ids) with
+    | none => .error .index
+    | some us =>
+      -- `dtypes_to_fp["uint8"]` is only created when a singleton is appended
+      .ok (if us.flatten.isEmpty then groups0 else addToU8 groups0 us.flatten)
+
 /-- `refine_inplace(X, initial_mol, n_largest)` -/
 def refine (pol : Cfg → Policy) (e : Est) (nLargest : Int) (data : List Row) (initialMol : Nat) : Est × Option Err :=
   if !e.st.isInit then (e, some .value)
@@ -254,19 +271,9 @@ def refine (pol : Cfg → Policy) (e : Est) (nLargest : Int) (data : List Row) (
     | (e0, none) =>
       if nLargest < 0 then (e0, some .value)
       else
-        let bfs := e0.st.sortedClus
-        let k := nLargest.toNat
-        let largest := bfs.take k
-        let rest := bfs.drop k
-        let groups0 := groupByW rest
-        if k = 0 then refitGroups pol e0.reset groups0
-        else
-          match largest.mapM (fun c => explode data initialMol c.ids) with
-          | none => (e0, some .index)
-          | some us =>
-            -- `dtypes_to_fp["uint8"]` is only created when a singleton is appended
-            let groups := if us.flatten.isEmpty then groups0 else addToU8 groups0 us.flatten
-            refitGroups pol e0.reset groups
+        match refineGroups e0.st.sortedClus nLargest.toNat data initialMol with
+        | .error x => (e0, some x)
+        | .ok groups => refitGroups pol e0.reset groups
 
 /-- argument of `set_merge`: a criterion name or a merge-function object -/
 inductive CritArg
